@@ -54,6 +54,50 @@ mod verif_c07 {
         kani::cover!(d.x < 0 && d.y > 0);
     }
 
+    /// Transform implementations of the remaining drawables: polylines (also ones that already carry an
+    /// offset: translations accumulate, vertices untouched), arcs, sectors, images and text move their
+    /// anchor by d and keep everything else; translate_mut == translate; bounding boxes of polylines and
+    /// images shift by d.
+    //@harness prop=C07 kind=contract tier=quick class=P fns=src/primitives/polyline/mod.rs::Polyline::translate;src/primitives/polyline/mod.rs::Polyline::translate_mut;src/primitives/arc/mod.rs::Arc::translate;src/primitives/sector/mod.rs::Sector::translate;src/image/mod.rs::Image::translate;src/text/text.rs::Text::translate
+    #[kani::proof]
+    #[kani::unwind(8)]
+    fn c07_transform_impls_open_shapes_images_text() {
+        use crate::{geometry::AngleUnit, image::{Image, ImageRaw}, mono_font::{ascii::FONT_6X9, MonoTextStyle}, text::Text};
+        let d = any_point(D);
+        let v = [any_point(D), any_point(D), any_point(D)];
+        let t0 = any_point(D);
+        let p = Polyline { translate: t0, vertices: &v };
+        let mut p2 = p;
+        let moved = p.translate(d);
+        assert!(moved.translate == shift(t0, d) && moved.vertices.len() == 3 && moved.vertices[0] == v[0] && moved.vertices[1] == v[1] && moved.vertices[2] == v[2]);
+        let pm = p2.translate_mut(d);
+        assert!(pm.translate == moved.translate && pm.vertices.as_ptr() == moved.vertices.as_ptr() && pm.vertices.len() == 3 && moved.vertices.as_ptr() == v.as_ptr());
+        let (b0, b1) = (p.bounding_box(), moved.bounding_box());
+        assert!(b1 == Rectangle::new(shift(b0.top_left, d), b0.size));
+        let a = Arc::new(any_point(D), kani::any(), 10.0.deg(), 70.0.deg());
+        let mut a2 = a;
+        assert!(a.translate(d) == Arc::new(shift(a.top_left, d), a.diameter, a.angle_start, a.angle_sweep) && *a2.translate_mut(d) == a.translate(d));
+        let s = Sector::new(any_point(D), kani::any(), 10.0.deg(), 70.0.deg());
+        let mut s2 = s;
+        assert!(s.translate(d) == Sector::new(shift(s.top_left, d), s.diameter, s.angle_start, s.angle_sweep) && *s2.translate_mut(d) == s.translate(d));
+        let data = [0u8; 2];
+        let raw: ImageRaw<Gray8> = ImageRaw::new(&data, Size::new(2, 1)).unwrap();
+        let pos = any_point(D);
+        let img = Image::new(&raw, pos);
+        let mut img2 = img;
+        assert!(img.translate(d) == Image::new(&raw, shift(pos, d)) && *img2.translate_mut(d) == img.translate(d));
+        assert!(img.translate(d).bounding_box() == Rectangle::new(shift(pos, d), Size::new(2, 1)));
+        let style = MonoTextStyle::new(&FONT_6X9, Gray8::new(1));
+        let txt = Text::new("ab", pos, style);
+        let mut txt2 = txt.clone();
+        let tm = txt.translate(d);
+        assert!(tm.position == shift(pos, d) && tm.text.len() == 2 && tm.text.as_ptr() == txt.text.as_ptr() && tm.text_style == txt.text_style);
+        assert!(core::ptr::eq(tm.character_style.font, txt.character_style.font) && tm.character_style.text_color == txt.character_style.text_color);
+        let tm2 = txt2.translate_mut(d);
+        assert!(tm2.position == tm.position && tm2.text.as_ptr() == tm.text.as_ptr() && tm2.text.len() == 2 && tm2.text_style == tm.text_style && core::ptr::eq(tm2.character_style.font, tm.character_style.font));
+        kani::cover!(d.x < 0 && d.y > 0 && t0.x != 0);
+    }
+
     /// contains() and bounding boxes of closed shapes shift by d (positions and offsets that move the
     /// object across the coordinate axes are included: all in +-2048)
     //@harness prop=C07 kind=lemma tier=quick class=P fns=src/primitives/circle/mod.rs::Circle::contains;src/primitives/rectangle/mod.rs::Rectangle::contains;src/primitives/circle/mod.rs::Circle::bounding_box
